@@ -99,7 +99,13 @@ pub fn gen_forward(ch: &mut Chooser, k: usize, nj: usize) -> String {
 /// Loop-shaped jump graphs: `nb` backward conditional jumps (the shape loops compile to) and `nf` forward jumps (breaks,
 /// skips, exits out of several loops) at every choice of positions, every backward target at or before the jump, every
 /// forward target after it; the remaining slots are `A += 1; mS(n);`.  Full product (free choices).
-pub fn gen_loops(ch: &mut Chooser, k: usize, nb: usize, nf: usize) -> String {
+pub fn gen_loops(ch: &mut Chooser, k: usize, nb: usize, nf: usize) -> String { gen_loops_ex(ch, k, nb, nf, false) }
+
+/// `timed`: the same graphs with stored times that go up and then DOWN: `+10:` in front of slot 1, an absolute `2:` in
+/// front of every slot in turn (the decompiler prints an absolute label exactly where the stored time decreases), on
+/// either side of the jump label that sits there, and `+5:` one slot later, so that a jump which arrives with the
+/// wrong time (that of the loop end instead of the label's) runs the following instructions at other real times.
+pub fn gen_loops_ex(ch: &mut Chooser, k: usize, nb: usize, nf: usize, timed: bool) -> String {
     // role per slot: 0 = marker, 1 = backward jump, 2 = forward jump
     let mut role = vec![0u8; k];
     let (mut rb, mut rf) = (nb, nf);
@@ -135,12 +141,17 @@ pub fn gen_loops(ch: &mut Chooser, k: usize, nb: usize, nf: usize) -> String {
     let targets: BTreeSet<usize> = jumps.iter().map(|j| j.2).collect();
     let mut out: Vec<String> = vec![];
     let mut m = 0;
-    for i in 0..k {
-        if targets.contains(&i) { out.push(format!("L{i}:")); }
+    let (abs_at, label_first) = if timed { (1 + ch.pick_free(k), ch.pick_free(2) == 1) } else { (usize::MAX, false) };
+    for i in 0..=k {
+        if timed && i == 1 { out.push("+10:".into()); }
+        if timed && i == abs_at + 1 { out.push("+5:".into()); }
+        if targets.contains(&i) && label_first { out.push(format!("L{i}:")); }
+        if i == abs_at { out.push("2:".into()); }
+        if targets.contains(&i) && !label_first { out.push(format!("L{i}:")); }
+        if i == k { if timed { out.push("+1: mS(99);".into()); } break; }
         if let Some((_, cond, t)) = jumps.iter().find(|j| j.0 == i) { out.push(format!("{cond} L{t};")); }
         else { m += 1; out.push(format!("A += 1; mS({m});")); }
     }
-    if targets.contains(&k) { out.push(format!("L{k}:")); }
     format!("{{ {} }}", out.join(" "))
 }
 
@@ -223,6 +234,46 @@ pub fn check_body(table: &Table, mapfile: &str, body: &str, vals: &[Valuation]) 
         out.failures.push(Failure { signature: format!("C07:label-refcount:{body}"), detail: detail(json!({"label": r, "structured": st_text})) }); break;
     } }
     if !out.failures.is_empty() { return out; }
+    // stored times that decrease (the texts carry absolute time labels): AstVm resets its clock to a block's end time whenever
+    // it leaves the block, which is not what the instruction stream does once time labels go down inside a block, so the
+    // two spellings of one stream disagree inside AstVm only (seen when this family was first run; not a defect of the
+    // decompiler).  These bodies are decided on the compiled form instead: both texts are lowered again and run by M1, whose
+    // clock is the machine's (a jump sets the clock to its time argument, an instruction waits until its stored time).
+    if tl1.iter().any(|l| !l.starts_with('+')) {
+        let r = catch(|| with_truth(mapfile, |truth| {
+            let mut lowered = vec![];
+            for (which, text) in [("flat", &flat_text), ("structured", &st_text)] {
+                let blk = front_end(truth, text, true).map_err(|(s, d)| format!("{which} text rejected at {s}: {d}"))?;
+                let des = desugar(truth, &blk).map_err(|d| format!("{which} text does not desugar: {d}"))?;
+                let (i2, _) = tl::lower(truth, &hooks, &des.0, false).map_err(|d| format!("{which} text does not lower: {d}"))?;
+                lowered.push(i2);
+            }
+            Ok::<_, String>(lowered)
+        }));
+        let lowered = match r {
+            Err(p) => { out.failures.push(Failure { signature: format!("C07:{}", p.signature()), detail: detail(json!({"panic": p.text, "structured": st_text})) }); return out; },
+            Ok(Err(e)) => { out.failures.push(Failure { signature: format!("C07:reparse-failed:{body}"), detail: detail(json!({"error": e, "flat": flat_text, "structured": st_text})) }); return out; },
+            Ok(Ok(x)) => x,
+        };
+        let cmp_regs: Vec<i32> = REGS.iter().map(|r| r.id).collect();
+        'vals: for (vi, val) in vals.iter().enumerate() {
+            let diffs: &[u32] = if body.contains("{\"") { &[0, 1] } else { &[0] };
+            for &d in diffs {
+                let reference = tl::run_m1(table, &instrs, val, d, 4);
+                let ta = tl::run_m1(table, &lowered[0], val, d, 4);
+                let tb = tl::run_m1(table, &lowered[1], val, d, 4);
+                out.execs += 3;
+                let (Ok(reference), Ok(ta), Ok(tb)) = (reference, ta, tb) else { out.discards.push("m1-cannot-run".into()); continue; };
+                for (which, t) in [("flat", &ta), ("structured", &tb)] {
+                    if let Some(diff) = tl::compare_traces_ex(&reference, t, &cmp_regs, true, true) {
+                        out.failures.push(Failure { signature: format!("C07:behaviour:{body}"), detail: detail(json!({"valuation": vi, "difficulty": d, "diff": diff, "which": format!("original stream vs recompiled {which} text, run by M1"), "flat": flat_text, "structured": st_text})) });
+                        break 'vals;
+                    }
+                }
+            }
+        }
+        return out;
+    }
     // behavioural clause: re-parse both texts (this also checks the structured text recompiles) and run
     let r = catch(|| with_truth(mapfile, |truth| {
         let a = front_end(truth, &flat_text, true).map_err(|(s, d)| format!("flat text rejected at {s}: {d}"))?;
@@ -299,6 +350,12 @@ pub fn run(tier: &str) -> Report {
         rep.transitions += stats.runs;
         if stats.capped { rep.cap_hit = Some(format!("generator cap in loops family k={kk} nb={nb} nf={nf}")); }
     }
+    // family 4b: loop-shaped graphs over stored times that decrease (absolute time labels in the decompiled text)
+    for (kk, nb, nf) in if thorough { vec![(3usize, 1usize, 1usize), (4, 1, 1), (5, 1, 1), (4, 2, 1), (5, 2, 1), (4, 1, 2)] } else { vec![(3, 1, 1), (4, 1, 1), (4, 2, 1)] } {
+        let stats = explore_dfs(0, 1_500_000, &|ch| gen_loops_ex(ch, kk, nb, nf, true), &mut |_, body| { if seen.insert(body.clone()) { bodies.push((body, "loops-timed")); } });
+        rep.transitions += stats.runs;
+        if stats.capped { rep.cap_hit = Some(format!("generator cap in timed loops family k={kk} nb={nb} nf={nf}")); }
+    }
     // family 2: structured programs (compiled, then recovered)
     let (b2, d2) = if thorough { (4, 2) } else { (3, 2) };
     let stats = explore_dfs(b2, 400_000, &|ch| {
@@ -345,9 +402,9 @@ pub fn run(tier: &str) -> Report {
     }
     if let Some(b) = bodies.last() { rep.sample(json!({"body": b.0, "family": b.1})); }
     rep.exhaustive = true;
-    rep.bound_completed = format!("flat graphs: k<={k} slots, <={max_jumps} jumps, every target assignment (deviations<={bound}); loop-shaped graphs: full product of positions x 3 backward kinds x every earlier-or-own target x 3 forward kinds x every later target for (slots, back, fwd) in (4,2,1),(5,2,1),(6,2,1) [thorough: +(7,2,1),(6,3,1),(6,2,2)]; structured programs with one extra jump into the nesting (a label before each of the first 4 markers, conditional or not); forward-only graphs: full product of jump positions x 4 kinds x every later target for (slots, jumps) in (6,3),(7,3) [thorough: (7,3),(8,3),(8,4)]; structured: deviations<={b2}, depth<={d2}; {tables_done}/{} intrinsic tables; {} valuations x difficulties 0,1", cfgs.len(), vals.len());
+    rep.bound_completed = format!("flat graphs: k<={k} slots, <={max_jumps} jumps, every target assignment (deviations<={bound}); loop-shaped graphs: full product of positions x 3 backward kinds x every earlier-or-own target x 3 forward kinds x every later target for (slots, back, fwd) in (4,2,1),(5,2,1),(6,2,1) [thorough: +(7,2,1),(6,3,1),(6,2,2)]; the same graphs for (3,1,1),(4,1,1),(4,2,1) [thorough: +(5,1,1),(5,2,1),(4,1,2)] over stored times that rise and then drop (`+10:` .. absolute `2:` in front of every slot in turn, before or after the jump label there .. `+5:`); structured programs with one extra jump into the nesting (a label before each of the first 4 markers, conditional or not); forward-only graphs: full product of jump positions x 4 kinds x every later target for (slots, jumps) in (6,3),(7,3) [thorough: (7,3),(8,3),(8,4)]; structured: deviations<={b2}, depth<={d2}; {tables_done}/{} intrinsic tables; {} valuations x difficulties 0,1", cfgs.len(), vals.len());
     rep.rule = "E-DFS over G-flat (marker / time label / jump of 8 kinds to any of k+1 label positions / interrupt label / difficulty-tagged statement) and G-block; distinct = distinct source text with >= 1 jump or block; non-trivial = block recovery changed the decompiled text".into();
-    rep.assumptions = vec!["truth::vm::AstVm is the reference interpreter on both sides".into(), "jumps into recovered blocks are executed after desugar_blocks (validated separately by C06)".into()];
+    rep.assumptions = vec!["truth::vm::AstVm is the reference interpreter on both sides, except for streams whose stored times decrease (absolute time labels), where both texts are lowered again and M1 runs them against the original stream".into(), "jumps into recovered blocks are executed after desugar_blocks (validated separately by C06)".into()];
     rep.explanation = "compile body -> RawInstrs -> (Raiser + postprocess_decompiled) with blocks off and on -> structural clauses on the two texts (time-label sequence, timed gotos, label reference counts) -> both texts re-parsed and executed by AstVm".into();
     rep
 }
